@@ -1,4 +1,5 @@
 from fontTools.misc import sstruct
+from fontTools.misc.filenames import userNameToFileName
 from fontTools.misc.textTools import (
     bytechr,
     byteord,
@@ -404,7 +405,8 @@ def _writeExtFileImageData(strikeIndex, glyphName, bitmapObject, writer, ttFont)
         # fall back to current directory if output file's directory isn't found
         folder = "."
     folder = os.path.join(folder, "bitmaps")
-    filename = glyphName + bitmapObject.fileExtension
+    # glyph names come from the font (or from a TTX file): never use them as a path verbatim
+    filename = userNameToFileName(glyphName, suffix=bitmapObject.fileExtension)
     if not os.path.isdir(folder):
         os.makedirs(folder)
     folder = os.path.join(folder, "strike%d" % strikeIndex)
